@@ -80,8 +80,9 @@ def finite_difference(blk: Module, fromsig: Union[Signal, Iterable[Signal]] = No
     df_an = [np.empty(0) for _ in outps]  # Analytical output sensitivities
     dx_an = [[np.empty(0) for _ in inps] for _ in outps]
 
-    # Initial reset in case some memory is still left
+    # Initial reset in case some memory is still left (also for signals that are not part of the executed modules)
     blk.reset()
+    [s.reset() for s in (*inps, *outps)]
 
     # Perform response
     blk.response()
@@ -135,6 +136,7 @@ def finite_difference(blk: Module, fromsig: Union[Signal, Iterable[Signal]] = No
 
         # Reset the sensitivities for next output
         blk.reset()
+        [s.reset() for s in (*inps, *outps)]
 
     # Perturb each of the input signals
     for Iin, Sin in enumerate(inps):
